@@ -65,6 +65,7 @@ type genReq struct {
 	crits   []critSpec
 	altIds  []string
 	chose   []string
+	invalid bool // made invalid on purpose (must be rejected)
 }
 
 func (g *genReq) body() []byte {
